@@ -531,6 +531,7 @@ def rule_spec_substitution_keeps_settings(model: Model, rule_id: str = 'C18-R7')
         if form.startswith('PHI(') and form.endswith(')'):
             alts = _split_top(form[4:-1], '|')
         bad = []
+        simultaneous: t.List[str] = []
         for a in alts:
             m_ = re.match(r'^(dataclasses\.replace|copy\.copy|copy\.replace)\(self(?:, (.*))?\)$', a)
             if a == 'self':
@@ -538,13 +539,23 @@ def rule_spec_substitution_keeps_settings(model: Model, rule_id: str = 'C18-R7')
             if not m_:
                 bad.append(a)
                 continue
-            kws = [k.split('=', 1)[0].strip() for k in _split_top(m_.group(2) or '', ',') if k.strip()]
+            kvs = [k.split('=', 1) for k in _split_top(m_.group(2) or '', ',') if k.strip()]
+            kws = [k[0].strip() for k in kvs]
             if any(k != 'ty' for k in kws):
                 bad.append(a)
+                continue
+            for k in kvs:
+                if len(k) == 2 and not re.fullmatch(r'pane\.util\.replace_typevars\(self\.ty, \$replacements\)', k[1].strip()):
+                    simultaneous.append(k[1].strip())
         if bad:
             r.fail(f.qualname, f"returns {bad[0][:120]}", f.loc(n.ast),
                    "the specialised field loses or changes a setting other than its type: e.g. field(converter=...) on a TypeVar-typed field is "
                    "dropped in Box[int], so class-level or built-in converters are used instead of the field's own")
+        elif simultaneous:
+            r.fail(f.qualname, f"ty={simultaneous[0][:100]}", f.loc(n.ast),
+                   "the field's type is not the result of one simultaneous substitution replace_typevars(self.ty, replacements): applying the "
+                   "bindings one after another lets a later binding rewrite what an earlier one produced (Child(Base[U, T]) swaps or "
+                   "collapses the variables)")
         else:
             r.ok()
     return r
@@ -575,10 +586,13 @@ def _split_top(s: str, sep: str) -> t.List[str]:
     return out
 
 
+PARSE_HOOKS = {'object_hook', 'parse_float', 'parse_int', 'parse_constant', 'object_pairs_hook', 'cls', 'strict'}
+
+
 def rule_io_passes_documents_through(model: Model, rule_id: str = 'C19-R5') -> RuleResult:
     """C19: what the parser produced is what gets converted, and what the converter produced is what gets dumped (no default, no filter)."""
     r = RuleResult(rule_id, 'readers convert exactly the parsed document and writers dump exactly the serialised value (no `or` default, '
-                            'no filtering in between)', floor=5)
+                            'no filtering in between)', floor=8)
     m = model.module('pane.io')
     for f in model.all_functions():
         if f.module is not m or not isinstance(f.node, ast.FunctionDef):
@@ -591,6 +605,17 @@ def rule_io_passes_documents_through(model: Model, rule_id: str = 'C19-R5') -> R
                     if not isinstance(c, ast.Call) or not c.args:
                         continue
                     q = model.resolve(c.func, f.module, f) or nz.expr(c.func, n)
+                    if q in ('json.load', 'json.loads', 'yaml.load', 'yaml.load_all', 'yaml.safe_load', 'yaml.safe_load_all'):
+                        r.instances += 1
+                        r.analysed.add(f.qualname)
+                        hooks = [k.arg or '**' for k in c.keywords if (k.arg or '**') in PARSE_HOOKS or k.arg is None]
+                        r.sample({f.name: unparse(c)[:100], 'parse hooks': hooks})
+                        if hooks:
+                            r.fail(f.qualname, f"{q}(..., {', '.join(hooks)}=...)", f.loc(c),
+                                   "the parser is given a hook that replaces or refuses part of the document (constants such as NaN / Infinity, "
+                                   "floats, ints, objects): values the writer produces no longer read back as written")
+                        else:
+                            r.ok()
                     if q == 'pane.convert.from_data':
                         r.instances += 1
                         r.analysed.add(f.qualname)
